@@ -24,8 +24,9 @@ ASSUMPTIONS = ['reference paths that run through another reference are not gener
                '"never hangs" is decided as: terminates within 5000000 traced line events inside the package (largest terminating case observed: about 130000 for a chain of 30)']
 
 DATA_TARGETS = [['d1'], ['d2'], ['d2', 0], ['d2', 1], ['d2', 1, 'k'], ['d3'], ['d3', 'm'], ['d3', 'm', 'n'], ['d3', 'l'], ['d3', 'l', 1], ['f1'], ['f2'],
-                ['box'], ['arr'], ['box', 'v']]
-MUTABLE = {('d2',), ('d2', 1), ('d3',), ('d3', 'm'), ('d3', 'l'), ('f1',), ('f2',), ('box',), ('arr',)}
+                ['box'], ['arr'], ['box', 'v'], ['e1'], ['e2'], ['d3', 'z'], ['e0']]
+# e1: [], e2: {}, d3.z: [] and e0: 0.0 evaluate to falsy values (an "is it cached" test must not confuse them with "not cached")
+MUTABLE = {('d2',), ('d2', 1), ('d3',), ('d3', 'm'), ('d3', 'l'), ('f1',), ('f2',), ('box',), ('arr',), ('e1',), ('e2',), ('d3', 'z')}
 
 
 def pstr(path):
@@ -71,6 +72,8 @@ def _case(draw):
                 kind = 'data'
             if kind == 'data':
                 pool = [t for t in DATA_TARGETS if t[0] not in ('box', 'arr', 'f2') or t == ['box', 'v']] if clean else DATA_TARGETS
+                if draw(st.integers(0, 3)) == 0:
+                    pool = [['e1'], ['e2'], ['d3', 'z'], ['e0']]
                 s['to'] = pool[draw(st.integers(0, len(pool) - 1))]
             elif kind == 'ref':
                 s['to'] = slots[draw(st.integers(i + 1 if clean else 0, nrefs - 1))]['path']
@@ -80,7 +83,7 @@ def _case(draw):
                 s['to'] = draw(st.sampled_from([['d1', 'x'], ['d2', 7], ['d3', 'm', 'zz'], ['box', 'none']]))
             else:
                 s['to'] = s['path']
-    order = draw(st.permutations(['d1', 'd2', 'd3', 'f1', 'f2', 'box', 'arr'] + [s['path'][0] for s in slots if len(s['path']) == 1]))
+    order = draw(st.permutations(['d1', 'd2', 'd3', 'f1', 'f2', 'box', 'arr', 'e1', 'e2', 'e0'] + [s['path'][0] for s in slots if len(s['path']) == 1]))
     ndocs = draw(st.integers(1, 3))
     split = [draw(st.integers(0, ndocs - 1)) for _ in order]
     return {'slots': slots, 'order': list(order), 'split': split, 'ndocs': ndocs}
@@ -98,7 +101,8 @@ def docs(case):
     top = {
         'd1': tdoc.sc(5),
         'd2': tdoc.sq([tdoc.sc(1), tdoc.mp([('k', tdoc.sc(2))], flow=True)], flow=True),
-        'd3': tdoc.mp([('m', tdoc.mp([('n', tdoc.sc(3))], flow=True)), ('l', tdoc.sq([tdoc.sc(4), tdoc.sc(5)], flow=True))]),
+        'd3': tdoc.mp([('m', tdoc.mp([('n', tdoc.sc(3))], flow=True)), ('l', tdoc.sq([tdoc.sc(4), tdoc.sc(5)], flow=True)), ('z', tdoc.sq([], flow=True))]),
+        'e1': tdoc.sq([], flow=True), 'e2': tdoc.mp([], flow=True), 'e0': tdoc.sc(0.0),
         'f1': tdoc.mp([], flow=True, tag='!call:vfrec.call_1'),
         'f2': tdoc.mp([('x', tdoc.sc(0))] + [(s['path'][1], ref(s)) for s in slots if s['path'][0] == 'f2'], tag='!call:vfrec.call_2'),
         'box': tdoc.mp([('v', tdoc.sc(8))] + [(s['path'][1], ref(s)) for s in slots if s['path'][0] == 'box']),
@@ -118,7 +122,7 @@ def analyse(case):
     slots = {tuple(s['path']): tuple(s['to']) for s in case['slots']}
     narr = sum(1 for s in case['slots'] if s['path'][0] == 'arr')
     data = {('d1',), ('d2',), ('d2', 0), ('d2', 1), ('d2', 1, 'k'), ('d3',), ('d3', 'm'), ('d3', 'm', 'n'), ('d3', 'l'), ('d3', 'l', 0), ('d3', 'l', 1),
-            ('f1',), ('f2',), ('f2', 'x'), ('box',), ('box', 'v'), ('arr',), ('arr', narr)}
+            ('f1',), ('f2',), ('f2', 'x'), ('box',), ('box', 'v'), ('arr',), ('arr', narr), ('e1',), ('e2',), ('e0',), ('d3', 'z')}
     children = {}
     for p in list(data) + list(slots):
         for i in range(1, len(p)):
